@@ -120,6 +120,11 @@ func init() {
 			}
 			return in.tt.BV(0, 64), true
 		},
+		"vMerge": func(in *Interp, fn *ssa.Function, a []Value, s ssa.Instruction) (Value, bool) {
+			t := in.term(a[0])
+			in.noMerge = !(t.IsConst() && t.u == 1) || os.Getenv("VERIF_NOMERGE") != ""
+			return unit(), true
+		},
 		"vSymbolic": func(in *Interp, fn *ssa.Function, a []Value, s ssa.Instruction) (Value, bool) {
 			return in.tt.Bool(!in.ex.concrete), true
 		},
